@@ -2,12 +2,13 @@
 
 judge-c10-parse <seed> <hex> <expected AST> <features> => <implementation output>
   C10 evaluated on what the implementation answered: the command that was parsed is the command that
-  was written. Known classes of failure are named from the generator's feature list (lit0 = an empty
-  string written as `{0}`, listlit = a list-mailbox written as a literal, lbr = `[` inside an atom).
+  was written. Known classes of failure are named from the generator's feature list (listlit = a
+  list-mailbox written as a literal, lbr = `[` inside an atom).
 
 judge-c11-parse <seed> <hex> ? <features> => <implementation output>
   parser part of C11: on arbitrary bytes the parser terminates, does not panic, and fails only with a
-  `*rfcparser.Error` (which the session turns into a tagged BAD) or because the input ended.
+  `*rfcparser.Error` (which the session turns into a tagged BAD) or because the input ended inside a
+  literal (`ioeof`).
 -/
 import GluonModel.Model.Parse.Grammar
 
@@ -30,9 +31,6 @@ def judgeC10 (args : List String) : String :=
       else if hasFeat feats "listlit" then
         s!"violation list-mailbox-literal-misparsed: written {expected} parsed {ast}"
       else s!"violation parsed-differs: written {expected} parsed {ast}"
-    | "err" :: "litzero" :: _ =>
-      if hasFeat feats "lit0" then s!"violation empty-literal-rejected: written {expected}, parser answered err litzero (plain error, not a parser error)"
-      else s!"violation valid-command-rejected: written {expected}, parser answered err litzero"
     | "err" :: "parse" :: t :: _ =>
       if hasFeat feats "lbr" then s!"violation lbracket-in-atom-rejected: written {expected}, parser answered err parse {t}"
       else s!"violation valid-command-rejected: written {expected}, parser answered err parse {t}"
@@ -46,9 +44,8 @@ def judgeC11 (args : List String) : String :=
     | "ok" :: _ => "ok trivial"
     | "err" :: "parse" :: _ => "ok nontrivial-parse-error"
     | "err" :: "ioeof" :: _ => "ok nontrivial-input-ended-in-literal"
-    | "err" :: "litzero" :: _ => "violation plain-error-litzero: `{0}` makes ParseLiteral return a plain error; the command reader exits, no tagged BAD"
-    | "err" :: "litbig" :: _ => "violation plain-error-litbig: oversize literal makes ParseLiteral return a plain error; the command reader exits, no tagged BAD"
-    | "hang" :: _ => "violation hang: the parser does not terminate at end of input (ParseQuoted keeps appending)"
+    | "err" :: "other" :: _ => "violation plain-error: the parser returned an error that is not a *rfcparser.Error; the command reader exits, no tagged BAD"
+    | "hang" :: _ => "violation hang: the parser does not terminate at end of input"
     | "panic" :: r => s!"violation panic: {" ".intercalate r}"
     | _ => s!"violation unexpected-outcome: {" ".intercalate impl}"
   | _ => "violation bad-judge-line"
